@@ -327,6 +327,131 @@ def playTimes (w : World) (e : Ev) : Rat → List Rat → List Msg × World × R
       let (ms, w', t', died) := playTimes w1 e (t + d) ds
       (m ++ ms, w', t', died)
 
+/-! ### Pmono -/
+
+/-- Names in a parameter list `[name, value, name, value, …]` (`msg_params[::2]`). -/
+def paramNames : List Arg → List String
+  | .s n :: _ :: r => n :: paramNames r
+  | _ => []
+
+/-- `e(name)` as a Pmono set event evaluates it for a control name of the running synth. -/
+def Ev.resolveArg (e : Ev) (fq : Sym) (nm : String) : Option Arg :=
+  if nm == "freq" then some (.n fq)
+  else
+    match e.get? nm with
+    | some v => v.arg?
+    | Option.none =>
+      if nm == "amp" then e.amp.map Arg.n
+      else if nm == "pan" || nm == "out" then some (.n (.q 0))
+      else Option.none
+
+/-- The synth a Pmono keeps running. -/
+structure Held where
+  id : Nat
+  names : List String
+  hasGate : Bool
+deriving Repr, Inhabited, DecidableEq
+
+/-- `_MonoOffEvent.play`: release (or free) the running synth `delay` after `t`. -/
+def offMsg (w : World) (t : Rat) (h : Held) (delay : Rat) : Msg :=
+  if h.hasGate then ⟨t + w.latency + delay, "/n_set", [.n (.q h.id), .s "gate", .n (.q 0)]⟩
+  else ⟨t + w.latency + delay, "/n_free", [.n (.q h.id)]⟩
+
+def setArgs (e : Ev) (fq : Sym) : List String → Option (List Arg)
+  | [] => some []
+  | nm :: rest =>
+    match e.resolveArg fq nm, setArgs e fq rest with
+    | some a, some r => some (.s nm :: a :: r)
+    | _, _ => Option.none
+
+/-- `_MonoSetEvent.play`: `/n_set id name value …` for the names the synth was started with. -/
+def setMsg (w : World) (t : Rat) (e : Ev) (h : Held) : Option Msg := do
+  let fq ← e.detunedFreq
+  let args ← setArgs e fq h.names
+  some ⟨t + w.latency, "/n_set", .n (.q h.id) :: args⟩
+
+/-- Pmono (articulate = false) played by an EventStreamPlayer: the first event starts the synth
+    (`/s_new` with the parameters of `_get_msg_params`), every later event updates it with
+    `/n_set`, the end of the pattern releases it. Rests are not played. -/
+def playMono (inst : String) (w : World) : Rat → Option Held → List Ev → List Msg × World × Rat × Bool
+  | t, held, [] =>
+    (match held with
+     | some h => [offMsg w t h 0]
+     | Option.none => [], w, t, false)
+  | t, Option.none, e :: es =>
+    let e := e.set "instrument" (.str inst)
+    match notePrep w e with
+    | Option.none => ([], w, t, true)
+    | some (i, hasGate, params, action, group) =>
+      let id := w.nextId
+      let w1 := { w with nextId := w.nextId + 1 }
+      let m1 : List Msg := if e.isRest then [] else
+        [⟨t + w.latency, "/s_new", [.s i, .n (.q id), .n (.q action), .n (.q group)] ++ params⟩]
+      match e.delta with
+      | Option.none => (m1, w1, t, false)
+      | some d =>
+        let (ms, w', t', died) := playMono inst w1 (t + d) (some ⟨id, paramNames params, hasGate⟩) es
+        (m1 ++ ms, w', t', died)
+  | t, some h, e :: es =>
+    if e.isRest then
+      match e.delta with
+      | Option.none => ([], w, t, false)
+      | some d => playMono inst w (t + d) (some h) es
+    else
+      match setMsg w t e h with
+      | Option.none => ([], w, t, true)
+      | some m =>
+        match e.delta with
+        | Option.none => ([m], w, t, false)
+        | some d =>
+          let (ms, w', t', died) := playMono inst w (t + d) (some h) es
+          (m :: ms, w', t', died)
+
+/-- Pmono with articulate = true: a synth is kept only while the sustain of an event reaches the next
+    one (`sustain >= delta`); an event with a shorter sustain releases the synth after its sustain
+    (and is itself still applied with `/n_set`), the next event starts a new synth; an event that
+    would start a synth but does not reach the next one is played as an ordinary note. -/
+def playMonoA (inst : String) (w : World) : Rat → Option Held → List Ev → List Msg × World × Rat × Bool
+  | t, held, [] =>
+    (match held with
+     | some h => [offMsg w t h 0]
+     | Option.none => [], w, t, false)
+  | t, Option.none, e :: es =>
+    let e := e.set "instrument" (.str inst)
+    match notePrep w e, e.sustain, e.delta with
+    | some (i, hasGate, params, action, group), some sus, some d =>
+      let id := w.nextId
+      let w1 := { w with nextId := w.nextId + 1 }
+      if d ≤ sus && !e.isRest then
+        let m1 : Msg := ⟨t + w.latency, "/s_new", [.s i, .n (.q id), .n (.q action), .n (.q group)] ++ params⟩
+        let (ms, w', t', died) := playMonoA inst w1 (t + d) (some ⟨id, paramNames params, hasGate⟩) es
+        (m1 :: ms, w', t', died)
+      else if e.isRest then playMonoA inst w1 (t + d) Option.none es
+      else
+        match playNote w1 t e with
+        | (m1, w2, true) => (m1, w2, t, true)
+        | (m1, w2, false) =>
+          let (ms, w', t', died) := playMonoA inst w2 (t + d) Option.none es
+          (m1 ++ ms, w', t', died)
+    | _, _, _ => ([], w, t, true)
+  | t, some h, e :: es =>
+    match e.sustain, e.delta with
+    | some sus, some d =>
+      let (pre, held') : List Msg × Option Held :=
+        if sus < d then ([offMsg w t h sus], Option.none)
+        else if e.isRest then ([offMsg w t h 0], Option.none)
+        else ([], some h)
+      if e.isRest then
+        let (ms, w', t', died) := playMonoA inst w (t + d) held' es
+        (pre ++ ms, w', t', died)
+      else
+        match setMsg w t e h with
+        | Option.none => (pre, w, t, true)
+        | some m =>
+          let (ms, w', t', died) := playMonoA inst w (t + d) held' es
+          (pre ++ m :: ms, w', t', died)
+    | _, _ => ([], w, t, true)
+
 /-! ### The event stream player -/
 
 /-- `EventStreamPlayer` from logical time `t` over the events its stream delivers: every event that
@@ -474,5 +599,15 @@ end
 /-- `pattern.play()` at logical time `t` with the default (empty) proto event. -/
 def playPattern (w : World) (t : Rat) (p : EPat) : List Msg × World × Rat × Bool :=
   playAll w t (p.evs [])
+
+/-- The events a Pmono's Pbind part delivers (empty proto). -/
+def Binds.rows (b : Binds) : List Ev :=
+  match b.len? with
+  | some n => (List.range n).map fun i => b.row i
+  | Option.none => []
+
+def playMonoPattern (w : World) (t : Rat) (inst : String) (artic : Bool) (b : Binds) :
+    List Msg × World × Rat × Bool :=
+  if artic then playMonoA inst w t Option.none b.rows else playMono inst w t Option.none b.rows
 
 end Sc3Verif.C14
